@@ -16,13 +16,14 @@ CHECKS = {
             "validation-strength over programs; the real TEAL is additionally executed against the source semantics.",
             "Trusted: Lean kernel, AVM spec (Avm/*.lean), source semantics (Src.lean), recipe builders; subroutines are covered by C02, options by C03.",
             "DESIGN.md Part II C01"),
-    "C02": ("exploration",
-            "Lean 4 theorem on the model of the recursion spill/restore code (all arities, slot sets, return kinds, dig/cover/uncover flavours) tied to the real function on an exhaustive grid; differential execution of real TEAL (AVM spec) against the source semantics with per-activation locals; families with independently computed verdicts",
+    "C02": ("translation_validation",
+            "Lean 4: proven-sound whole-program certificate checker (simR_sound: routine graphs of the code-generation model incl. prologues, frame_dig parameters, callsub with spill/restore, retsub vs the real TEAL, all contexts) + universal spill theorem tied to the real function on an exhaustive grid; differential execution against the source semantics; families and random ABI call graphs with independently computed verdicts",
             "Call-graph programs (self/mutual recursion, by-value/by-reference parameters, none/uint64/bytes/ABI results, calls in operand position, "
             "early Return) are compiled by the real compiler for versions 4..10 x frame_pointers x scratch_slots and executed on the Lean AVM "
             "spec against the Lean source semantics on generated contexts; the spill/restore sequences are covered by a universal theorem.",
-            "Trusted: AVM frame rules (callsub/retsub/proto/frame_dig/frame_bury) and the source semantics of calls in Src.lean; whole-program "
-            "simulation for calls is not yet certificate-checked (C01's validator covers call-free routines).",
+            "Trusted: AVM frame rules (callsub/retsub/proto/frame_dig/frame_bury), the source semantics of calls in Src.lean, and that the "
+            "model routine graphs (Comp.genR) mean what the source program means (proved for call-free trees in C01, executed against "
+            "Src for call graphs). ABI subroutines are covered by execution only.",
             "DESIGN.md Part II C02"),
     "C03": ("exploration",
             "Lean 4 theorems on the model of the scratch-slot optimiser (sound when every access to a cancelled slot is an adjacent store/load pair; counterexample for dead stores) tied to the real pass on generated graphs; option-pair differential execution of the real TEAL texts incl. stack at every routine exit",
